@@ -45,19 +45,35 @@ def replay(case):
         except ZeroDivisionError:
             return {'violates': q != 0, 'observed': 'ZeroDivisionError', 'key': 'rational'}
         return {'violates': q == 0 or v != Fraction(p, q), 'observed': str(v), 'key': 'rational'}
-    if kind == 'parse':
-        from . import c06
-        text = t['text']
-        expr = text
-        lit = text[2:-1] if text.startswith('-(') else text.lstrip('-')
-        problems, want, negzero = c06.check_spelling(expr, 'negzero' if (exact_decimal(lit)[1] == 0 and text.startswith('-')) else 'dec', text if not text.startswith('-(') else '-' + lit, 0)
-        return {'violates': bool(problems), 'observed': {'spelling': text, 'problems': problems[:3]}, 'key': 'literal-through-python-float'}
     if kind == 'spelling':
         from . import c06
         payload = inp['payload']
         if isinstance(payload, list):
             payload = tuple(payload)
         problems, want, negzero = c06.check_spelling(inp['expr'], inp['kind'], payload, inp['ctx'])
-        key = 'literal-through-python-float' if inp['kind'] in ('dec', 'negzero') else 'spelling:' + inp['kind']
+        key = 'spelling:' + inp['kind']
+        if problems and inp['kind'] in ('dec', 'negzero'):
+            key = 'spelling:dec:' + float_path_signature(inp['expr'], payload, inp['ctx'], problems)
         return {'violates': bool(problems), 'observed': {'spelling': inp['expr'], 'problems': problems[:3]}, 'key': key}
     raise ValueError(kind)
+
+
+def float_path_signature(expr, payload, ci, problems):
+    """is the failure exactly what `Parser._parse_constant` does with a float constant -- the value of the double CPython
+    parsed (Integer(int(d)) or Decnum(str(d)))?  Then the signature is 'value-of-python-double'; anything else is 'other'."""
+    from . import c06
+    from .c06_common import exact_decimal
+    text = payload if isinstance(payload, str) else str(payload)
+    neg = text.startswith('-')
+    lit = text.lstrip('-').replace('_', '')
+    try:
+        d = float(lit)
+    except ValueError:
+        return 'other'
+    if d in (float('inf'),):
+        return 'value-of-python-double' if all('invalid decimal number: inf' in p for p in problems) else 'other'
+    pv = Fraction(int(d)) if d.is_integer() else exact_decimal(repr(d))[1]
+    if neg:
+        pv = -pv
+    p2, _, _ = c06.check_spelling(expr, 'dec', payload, ci, want_override=(pv, neg and pv == 0))
+    return 'value-of-python-double' if not p2 else 'other'
